@@ -18,6 +18,17 @@ import vmd_common as V
 
 KEY_UNVERIFIED = 'c17:transparency:unverified-module:code_length'
 KEY_TSAN_CRC = 'c17:tsan:data-race:crc32_init'
+KEY_EXIT = 'c17:transparency:main-result-exit-status'
+
+
+def exit_only(obs, exp):
+    """Everything standalone shows except that the exit status is 0 instead of main's int result."""
+    return obs[1:] == exp[1:] and obs[0] == 0 and exp[0] != 0
+
+
+def fail_exit(ck, p, obs, tag, k=1):
+    ck.fail(KEY_EXIT, 'a program whose main returns %d exits with status %d through the daemon and %d standalone (stdout and stderr agree)' % (p['obs'][0], obs[0], p['obs'][0]),
+            dict(case='exit-status', program=p['src'], k=k, engine=tag, expected=dict(exit=p['obs'][0]), observed=dict(exit=obs[0])))
 
 
 def hx(b):
@@ -135,7 +146,10 @@ def one_round(ck, b, d, ref, progs, k, jitter, seed, tag, bud, raw_share=0.25, p
         if anom == 'comm':
             n_comm += 1
             bud.anomaly('comm: client %d/%d %s (%s)' % (i, k, p['name'], rs[0]))
-        if obs != exp:
+        if exit_only(obs, exp):
+            bad += 1
+            fail_exit(ck, p, obs, tag, k)
+        elif obs != exp:
             bad += 1
             fd = next((j for j, (x, y) in enumerate(zip(obs[1], exp[1])) if x != y), min(len(obs[1]), len(exp[1])))
             ck.fail(key, 'client %d/%d (%s) observed a result different from standalone nano_vm: exit %s vs %s, stdout %d vs %d bytes (first difference at %d), stderr %r vs %r' % (
@@ -160,7 +174,9 @@ def one_round(ck, b, d, ref, progs, k, jitter, seed, tag, bud, raw_share=0.25, p
             f = m.split()
             mobs = (int(f[5]), bytes.fromhex(f[1]) if f[1] != '-' else b'', bytes.fromhex(f[3]) if f[3] != '-' else b'')
             ck.count(('clientloop', tag, p['name'], seed, i), nontrivial=True)
-            if mobs != p['obs']:
+            if exit_only(mobs, p['obs']):
+                fail_exit(ck, p, mobs, tag, k)
+            elif mobs != p['obs']:
                 bad += 1
                 ck.fail('c17:clientloop:%s' % p['name'], 'extracted client_observe on the daemon\'s reply bytes differs from the standalone observation',
                         dict(case='clientloop', program=p['src'], expected=str(p['obs'])[:400], observed_model=str(mobs)[:400], reply_hex=res[i][1].hex()[:2000]))
@@ -298,7 +314,9 @@ def counter_tie(ck, b, progs, bud, tag='nano_vmd(plain)'):
                     bud.anomaly('hung: held session %s' % p['name'], hung=True)
                     for s2, _ in socks:          # do not wait one timeout per remaining held session
                         s2.settimeout(2.0)
-                if hung or V.expected_client_obs(V.canon_reply(buf)) != p['obs']:
+                if not hung and exit_only(V.expected_client_obs(V.canon_reply(buf)), p['obs']):
+                    fail_exit(ck, p, V.expected_client_obs(V.canon_reply(buf)), tag, m)
+                elif hung or V.expected_client_obs(V.canon_reply(buf)) != p['obs']:
                     ck.fail('c17:client:%s:%s' % (p['kind'], hashlib.sha1(p['src'].encode()).hexdigest()[:10]),
                             'session held in flight with %d others %s' % (m - 1, 'was never completed by the daemon (timeout %g s)' % bud.timeout() if hung else 'got a result different from standalone'),
                             dict(case='client', program=p['src'], k=m, hung=hung, engine=tag, phase='counter tie: %d sessions held in flight' % m))
@@ -310,6 +328,92 @@ def counter_tie(ck, b, progs, bud, tag='nano_vmd(plain)'):
     finally:
         d.stop()
     return rep
+
+
+class SilentPhase(threading.Thread):
+    """The "silent interval" axis: programs that print, compute silently for about T seconds, and print again, served by their own
+    daemon through `nano_vm --daemon` and through a generated daemon wrapper (nano_virt --daemon-wrapper), compared with standalone.
+    Runs beside the concurrent rounds so that the wall time grows by little.  T is calibrated on this machine, now."""
+    def __init__(self, ck, b, wd, targets):
+        super().__init__(daemon=True)
+        self.ck, self.b, self.wd, self.targets = ck, b, os.path.join(wd, 'silent'), targets
+        self.report = []; self.error = None; self.fails = []
+
+    def run(self):
+        try:
+            self._run()
+        except Exception as e:          # reported by the main thread
+            self.error = '%s: %s' % (type(e).__name__, e)
+
+    def _run(self):
+        b = self.b
+        os.makedirs(self.wd, exist_ok=True)
+        cal, diag = V.compile_nvm(b, V.gen_silent_program('CAL', 8, 24), self.wd, 'cal')
+        if cal is None:
+            raise RuntimeError('nano_virt refused the silent program: %s' % (diag,))
+        t0 = time.time(); V.standalone(b, cal, timeout=120); unit = max(0.004, (time.time() - t0) / 8)
+        items = []
+        for T in self.targets:
+            steps = max(10, min(5000, int(1.25 * T / unit)))
+            src = V.gen_silent_program('SILENT%d' % T, steps, 24)
+            nvm, diag = V.compile_nvm(b, src, self.wd, 'silent%d' % T)
+            if nvm is None:
+                raise RuntimeError('nano_virt refused the silent program: %s' % (diag,))
+            wrap, wdiag = V.build_daemon_wrapper(b, os.path.join(self.wd, 'silent%d.nano' % T), os.path.join(self.wd, 'silent%d_wrapper' % T), self.wd)
+            items.append(dict(T=T, steps=steps, src=src, nvm=nvm, wrapper=wrap, wrapper_diag=wdiag))
+        d = V.Daemon(b); d.start()
+        try:
+            res = {}
+
+            def one(key, cmd, env, tmo):
+                t1 = time.time(); res[key] = (V.run_cmd(cmd, env=env, timeout=tmo), time.time() - t1)
+            ths = []
+            for it in items:
+                tmo = 6 * it['T'] + 40
+                ths.append(threading.Thread(target=one, args=((it['T'], 'standalone'), [b.bin('nano_vm'), it['nvm']], None, tmo)))
+                ths.append(threading.Thread(target=one, args=((it['T'], 'nano_vm --daemon'), [b.bin('nano_vm'), '--daemon', it['nvm']], d.env, tmo)))
+                if it['wrapper']:
+                    ths.append(threading.Thread(target=one, args=((it['T'], 'daemon wrapper'), [it['wrapper']], d.env, tmo)))
+            [t.start() for t in ths]; [t.join() for t in ths]
+            alive = d.alive()
+        finally:
+            d.stop()
+        for it in items:
+            st, t_st = res[(it['T'], 'standalone')]
+            row = dict(target_s=it['T'], steps=it['steps'], standalone_s=round(t_st, 1), wrapper_built=bool(it['wrapper']))
+            if not it['wrapper']:
+                row['wrapper_diag'] = str(it['wrapper_diag'])[:300]
+            for how in ('nano_vm --daemon', 'daemon wrapper'):
+                if (it['T'], how) not in res:
+                    continue
+                obs, t_o = res[(it['T'], how)]
+                row[how.replace(' ', '_') + '_s'] = round(t_o, 1)
+                exp = st
+                if how == 'daemon wrapper' and V.client_anomaly(obs) is None and obs[0] == exp[0] and obs[1] == exp[1]:
+                    pass
+                if obs != exp and not (how == 'daemon wrapper' and obs[:2] == exp[:2] and exp[2] == obs[2]):
+                    self.fails.append(('c17:silent:%ds:%s' % (it['T'], how.replace(' ', '-')),
+                        'a program that prints, computes silently for %.1f s and prints again is not served like standalone through %s: exit %s vs %s, stdout %r vs %r, stderr %r vs %r (client ended after %.1f s)' % (
+                            t_st, how, obs[0], exp[0], obs[1][:60], exp[1][:60], obs[2][:80], exp[2][:80], t_o),
+                        dict(case='silent', program=it['src'], silent_seconds_standalone=round(t_st, 1), target_seconds=it['T'], client=how, engine='nano_vmd(plain)',
+                             expected=dict(exit=exp[0], stdout=exp[1].decode('utf-8', 'replace')[:300], stderr=exp[2].decode('utf-8', 'replace')[:200]),
+                             observed=dict(exit=obs[0], stdout=obs[1].decode('utf-8', 'replace')[:300], stderr=obs[2].decode('utf-8', 'replace')[:200], seconds=round(t_o, 1)),
+                             daemon_alive=alive, theorem='C17_client_waits_indefinitely / C17_daemon_transparent_partial')))
+            self.report.append(row)
+
+    def finish(self, ck):
+        """called by the main thread after join()"""
+        if self.error:
+            raise RuntimeError('silent-interval phase failed: ' + self.error)
+        for row in self.report:
+            ck.count(('silent', row['target_s'], 'nano_vm --daemon'), nontrivial=True)
+            if row.get('wrapper_built'):
+                ck.count(('silent', row['target_s'], 'daemon wrapper'), nontrivial=True)
+            if row['standalone_s'] < row['target_s']:
+                ck.note('silent program calibrated for %d s ran only %.1f s standalone' % (row['target_s'], row['standalone_s']))
+        for key, what, rep in self.fails:
+            ck.fail(key, what, rep)
+        return self.report
 
 
 def unverified_case(ck, b, progs, bud):
@@ -357,7 +461,7 @@ def tsan_cold_burst(ck, bt, progs, bud, n=12):
     are inside crc32_init()/nvm_crc32() before any of them has written to its socket (TSan treats every socket write/read pair as
     a release/acquire on one global object, which hides the race from later arrivals)."""
     import socket
-    small = [p for p in progs.items if len(p['obs'][1]) < 20000 and p['obs'][0] == 0]
+    small = [p for p in progs.items if len(p['obs'][1]) < 20000 and p['obs'][2] == b'']
     d = V.Daemon(bt, env_extra=dict(TSAN_OPTIONS='halt_on_error=0:report_signal_unsafe=0'))
     d.start()
     out = [None] * n
@@ -410,7 +514,9 @@ def tsan_cold_burst(ck, bt, progs, bud, n=12):
         ck.count(('tsanburst', p['name'], i), nontrivial=True)
         if hung:
             bud.anomaly('hung: cold burst client %d %s' % (i, p['name']), hung=True)
-        if hung or V.expected_client_obs(V.canon_reply(buf)) != p['obs']:
+        if not hung and exit_only(V.expected_client_obs(V.canon_reply(buf)), p['obs']):
+            fail_exit(ck, p, V.expected_client_obs(V.canon_reply(buf)), 'nano_vmd(tsan)', n)
+        elif hung or V.expected_client_obs(V.canon_reply(buf)) != p['obs']:
             ck.fail('c17:client:%s:%s' % (p['kind'], hashlib.sha1(p['src'].encode()).hexdigest()[:10]),
                     'client %d of the simultaneous cold-start burst of %d %s' % (i, n, 'was never served (timeout)' if hung else 'observed a result different from standalone'),
                     dict(case='client', program=p['src'], k=n, hung=hung, engine='nano_vmd(tsan)', phase='simultaneous cold-start burst of %d raw clients' % n))
@@ -436,7 +542,7 @@ def report_tsan(ck, reps):
 
 def run(ck):
     b = ck.build('plain')
-    ck.gen(['gen_vmdconsts', 'gen_vmdfacts', 'gen_sharedstate'])
+    ck.gen(['gen_vmdconsts', 'gen_vmdfacts', 'gen_sharedstate', 'gen_sigsites'])
     ck.prove()
     ref = ck.nvref('c17')
     probe = ck.probe('vmd_probe.c', 'plain')
@@ -444,13 +550,14 @@ def run(ck):
     try:
         progs = V.Programs(b, wd)
         nprog = 32 if ck.thorough else 16
-        kinds = list(V.PROGRAM_KINDS)
+        kinds = list(V.PROGRAM_KINDS) + ['ffi']
         for i in range(nprog):
             progs.add(ck.rng, 'C%02d%s' % (i, 'qwertyuiopasdfghjklzxcvbnmQWERTY'[i % 32]), kinds[i % len(kinds)], scale=2 if ck.thorough else 1)
         ck.extra['programs'] = dict(count=len(progs.items), kinds={k: sum(1 for p in progs.items if p['kind'] == k) for k in kinds},
                                     stdout_bytes=dict(min=min(len(p['obs'][1]) for p in progs.items), max=max(len(p['obs'][1]) for p in progs.items),
                                                       total=sum(len(p['obs'][1]) for p in progs.items)),
-                                    with_runtime_error=sum(1 for p in progs.items if p['obs'][0] != 0))
+                                    with_runtime_error=sum(1 for p in progs.items if p['obs'][2] != b''),
+                                    exit_statuses=sorted(set(p['obs'][0] for p in progs.items)))
         # standalone is deterministic (otherwise the comparison means nothing)
         for p in progs.items[:6]:
             again = V.standalone(b, p['nvm'])
@@ -459,6 +566,8 @@ def run(ck):
         ck.extra['crc_cases'] = crc_corr(ck, ref, probe, progs)
         ks = [2, 8, 16, 16] if not ck.thorough else [2, 16, 64]
         bud = V.Budget(t_first=60.0, t_after=20.0, k=3, wall=200.0 if not ck.thorough else 1000.0)
+        silent = SilentPhase(ck, b, wd, [7] if not ck.thorough else [2, 6, 12])
+        silent.start()
         rep, health, err = rounds(ck, b, ref, progs, 'nano_vmd(plain)', ks, bud, nrounds=4 if not ck.thorough else 6)
         ck.extra['rounds_plain'] = rep
         ck.extra['health_plain'] = health
@@ -466,6 +575,8 @@ def run(ck):
         if ck.extra['overlap_max'] < 2:
             ck.note('sessions never overlapped (max simultaneous = %d): isolation was not exercised' % ck.extra['overlap_max'])
         ck.extra['counter_tie'] = counter_tie(ck, b, progs, bud)
+        silent.join()
+        ck.extra['silent_interval'] = silent.finish(ck)
         ck.extra['unverified_module'] = unverified_case(ck, b, progs, bud)
         cdir = os.path.join(vlib.VERIF, 'corpus', 'C17')
         for fn in sorted(os.listdir(cdir)) if os.path.isdir(cdir) else []:
@@ -520,7 +631,8 @@ def run(ck):
     ck.cov['rule'] = ('rounds of k concurrent clients (k in %s) x arrival jitter {0, 4 ms, 30 ms}; modules drawn with repetition from generated programs of 9 kinds '
                       '(line printers, global state, heap-heavy strings, unterminated last line, runtime error after partial line, arrays, >300 KB output, silent, mixed); '
                       '3/4 real nano_vm --daemon clients, 1/4 raw sockets whose reply is also run through the extracted client loop; overlap measured by STATUS polling; '
-                      'counter tie: m in {1,3,7} sessions held in flight vs STATUS; '
+                      'counter tie: m in {1,3,7} sessions held in flight vs STATUS; silent-interval axis: print / compute silently ~7 s (thorough 2, 6, 12 s, calibrated at run time) / print, '
+                      'through nano_vm --daemon and a generated daemon wrapper; '
                       'non-trivial = a client with output in a round of k > 1; distinct = (module, round, client index)' % ks)
     ck.extra['exhaustive'] = False
     ck.trusted += ['tools/gen/gen_sharedstate.py: nm inventory of the objects in nano_vmd\'s link list (tools/build_repo.py); reachability from ld --gc-sections --print-gc-sections '
@@ -529,7 +641,8 @@ def run(ck):
                    'extraction: ExtrOcamlBasic only; extract/nvio.ml + c17_driver.ml',
                    'tools/props/vmd_common.py (private daemon, frame parser, python transcription of the client loop for raw sessions); probes/vmd_probe.c',
                    'the scheduler of the host: interleavings are those the kernel produced under the seeded arrival jitter; no yields are injected inside the daemon']
-    ck.assumptions += ['sequential consistency for the shared CRC table (the C11 data race on crc32_initialized/crc32_table is outside the model; TSan build in the thorough tier)',
+    ck.assumptions += ['the client is a blocking reader with no time limit between connect and EXIT_CODE (model: client_loop is a function of the reply bytes; source: generated flag vmd_client_has_timeout = false, theorem C17_client_waits_indefinitely)',
+                       'sequential consistency for the shared CRC table (the C11 data race on crc32_initialized/crc32_table is outside the model; TSan build in the thorough tier)',
                        'classes of SharedClasses.v are asserted by reading; sessions that perform extern calls (PerProcessFfi symbols: FFI module table, runtime allocator gc_state) '
                        'are outside the isolation theorem and outside the generated programs',
                        'dlopen-ed FFI modules could name exported symbols that the relocation graph does not show',
@@ -538,11 +651,18 @@ def run(ck):
 
 
 def replay(ck, d):
-    b = ck.build('plain'); ck.gen(['gen_vmdconsts', 'gen_vmdfacts', 'gen_sharedstate'])
+    b = ck.build('plain'); ck.gen(['gen_vmdconsts', 'gen_vmdfacts', 'gen_sharedstate', 'gen_sigsites'])
     kind = d.get('case')
     wd = tempfile.mkdtemp(prefix='c17r_', dir=vlib.BUILD)
     try:
-        if kind in ('client', 'clientloop'):
+        if kind == 'silent':
+            nvm, diag = V.compile_nvm(b, d['program'], wd, 'silent')
+            st = V.standalone(b, nvm, timeout=300)
+            with V.Daemon(b) as dm:
+                o = V.via_daemon(b, dm, nvm, timeout=300)
+            print('standalone:', st); print('via daemon:', o)
+            print('REPRODUCED' if o != st else 'not reproduced'); return 1 if o != st else 0
+        if kind in ('client', 'clientloop', 'exit-status'):
             nvm, diag = V.compile_nvm(b, d['program'], wd, 'replay')
             if nvm is None:
                 print('program no longer compiles:', diag); return 1
